@@ -5,6 +5,7 @@ package srv
 import (
 	"context"
 	"errors"
+	"fmt"
 	"net"
 	"sync"
 	"time"
@@ -28,7 +29,8 @@ func (r RawResponse) Bytes() []byte       { return r.B }
 type Handler struct {
 	mu  sync.Mutex
 	Dev *device.Device
-	// Mode: "" device reply; "typed-error" packet.NewErrorParseTCP(Code, msg); "generic-error"; "panic"
+	// Mode: "" device reply; "typed-error" packet.NewErrorParseTCP(Code, msg); "generic-error"; "panic";
+	// "client-exception[-wrapped]" an *packet.ErrorResponseTCP (optionally %w-wrapped) addressed to somebody else
 	Mode string
 	Code uint8
 	// Delay before answering; Started is signalled (non-blocking) when a handler call starts
@@ -66,6 +68,14 @@ func (h *Handler) Handle(ctx context.Context, req packet.Request) (packet.Respon
 		return nil, packet.NewErrorParseTCP(code, "handler says no")
 	case "generic-error":
 		return nil, errors.New("handler failed")
+	case "client-exception", "client-exception-wrapped":
+		// what a gateway handler gets from modbus.Client.Do when the upstream device answers with an exception: an error value of
+		// the client API's type that carries ITS OWN addressing (upstream transaction id / unit id / function)
+		up := &packet.ErrorResponseTCP{TransactionID: 0xBEEF, UnitID: raw[6] + 3, Function: 0x2B, Code: code}
+		if mode == "client-exception-wrapped" {
+			return nil, fmt.Errorf("upstream refused: %w", up)
+		}
+		return nil, up
 	case "panic":
 		panic("handler panic (injected)")
 	}
